@@ -111,7 +111,8 @@ Definition flag1 (m : pkt) (trunc : bool) : N :=
 Definition flag2 (m : pkt) : N :=
   N.lor (N.lor (N.lor (bit (cd m) 32) (bit (ad m) 64)) (bit (ra m) 128)) (rcode m mod 16).
 
-Definition encode_sized (m : pkt) (size : N) : outcome (list N) :=
+(* the octets, and whether a record was dropped *)
+Definition encode_sized_t (m : pkt) (size : N) : outcome (list N * bool) :=
   if size <? 512 then Panic Assert else
   if 4095 <? rcode m then Panic Assert else
   let adds := additional m ++ opt_rr m in
@@ -125,13 +126,16 @@ Definition encode_sized (m : pkt) (size : N) : outcome (list N) :=
       match (if t2 then Ok ([], k2, 0, true) else push_rrs size (p0 + lenN ab + lenN nb) k2 adds) with
       | Ok (db, _, dc, t3) =>
         Ok (be16 (qid m) ++ [flag1 m t3; flag2 m] ++ be16 1 ++ be16 ac ++ be16 nc ++ be16 dc
-            ++ qbytes ++ ab ++ nb ++ db)
+            ++ qbytes ++ ab ++ nb ++ db, t3)
       | Err e => Err e | Panic p => Panic p
       end
     | Err e => Err e | Panic p => Panic p
     end
   | Err e => Err e | Panic p => Panic p
   end.
+
+Definition encode_sized (m : pkt) (size : N) : outcome (list N) :=
+  match encode_sized_t m size with Ok (b, _) => Ok b | Err e => Err e | Panic p => Panic p end.
 
 Definition encode (m : pkt) : outcome (list N) := encode_sized m 65536.      (* serialise() *)
 
@@ -325,7 +329,7 @@ Definition wf_pkt (m : pkt) : bool :=
   && wf_name (qname m) && w16 (qtype m) && w16 (qclass m)
   && forallb wf_rr (answer m) && forallb wf_rr (nameserver m) && forallb wf_rr (additional m)
   && negb (existsb (fun r => r_type r =? T_OPT) (additional m))
-  && (lenN (answer m) <? 65536) && (lenN (nameserver m) <? 65536) && (lenN (additional m) <? 65535)
+  && (lenN (answer m) <? 65536) && (lenN (nameserver m) <? 65536) && (lenN (additional m ++ opt_rr m) <? 65536)
   && match edns m with
      | Some o => wf_opts o && opt_eqb N.eqb (edns_ver m) (Some 0)
      | None => (rcode m <? 16) && (bufsize m =? 512) && negb (edns_do m)
